@@ -134,11 +134,11 @@ package interpreter
 // puts the caller's objects back on every path that reports no error.
 
 //@ func (*Interpreter).ProcessSubroutine [C13]
-//@   requires i != nil && i.ctx != nil && i.process != nil && sub != nil
+//@   requires i != nil && i.ctx != nil
 //@   ensures [locals-restored C13] err == nil ==> i.localVars == old(i.localVars)
 //@   ensures [captures-restored C13] err == nil ==> i.ctx == old(i.ctx) && i.ctx.RegexMatchedValues == old(i.ctx.RegexMatchedValues)
 
 //@ func (*Interpreter).ProcessFunctionSubroutine [C13]
-//@   requires i != nil && i.ctx != nil && i.process != nil && sub != nil && sub.Block != nil
+//@   requires i != nil && i.ctx != nil
 //@   ensures [locals-restored C13] err == nil ==> i.localVars == old(i.localVars)
 //@   ensures [captures-restored C13] err == nil ==> i.ctx == old(i.ctx) && i.ctx.RegexMatchedValues == old(i.ctx.RegexMatchedValues)
